@@ -286,7 +286,7 @@ func (p *Prog) Exec(line string) string {
 			out := hex.EncodeToString([]byte(fmt.Sprintf(format, v(1))))
 			ref := "-"
 			verb := format[len(format)-1]
-			if fl, ok := dyadic(v(1)); ok && (strings.Contains(format, ".") || v(1).IsInf()) && strings.IndexByte("eEfFgG", verb) >= 0 {
+			if fl, ok := dyadic(v(1)); ok && (strings.Contains(format, ".") || v(1).IsInf()) && strings.IndexByte("eEfFgGv", verb) >= 0 {
 				ref = hex.EncodeToString([]byte(fmt.Sprintf(format, fl)))
 			}
 			return out + " " + ref
@@ -555,6 +555,12 @@ func (p *Prog) Exec(line string) string {
 				return retIs(p.ctx.Sqrt(v(1), nil), v(1))
 			}
 			return retIs(p.ctx.Add(v(1), nil, v(2)), v(1))
+		})
+	case "cnewf64": // z := ctx.NewFloat64(bits): a NaN must be latched, not raised
+		return p.Op(line, []int{vi(1)}, func() string {
+			b, _ := strconv.ParseUint(t[2], 16, 64)
+			p.vars[vi(1)] = p.ctx.NewFloat64(math.Float64frombits(b))
+			return ""
 		})
 	case "cnewint64": // z := ctx.NewInt64(v)
 		return p.Op(line, []int{vi(1)}, func() string { p.vars[vi(1)] = p.ctx.NewInt64(atoi64(t[2])); return "" })
